@@ -10,8 +10,11 @@ type Explorer struct {
 	// scheduler plus at most Bound deviations) instead of counting preemptions only.
 	Delay bool
 	Bound int
-	Opt   Options
-	Body  func()
+	// RootShard/RootShards split one exploration over several workers: the alternatives
+	// branching off the default execution are dealt round-robin; shard 0 also owns the default execution.
+	RootShard, RootShards int
+	Opt                   Options
+	Body                  func()
 	// Check judges one execution; it returns an outcome label and, if the execution
 	// violates the property, a failure description.
 	Check   func(e *Exec) (outcome string, fail string)
@@ -82,6 +85,7 @@ func (x *Explorer) explore(prefix []int) bool {
 			cost++
 		}
 	}
+	rootN := 0
 	for i := len(prefix); i < len(e.Points); i++ {
 		p := e.Points[i]
 		for alt := 1; alt < p.Enabled; alt++ {
@@ -91,6 +95,12 @@ func (x *Explorer) explore(prefix []int) bool {
 			}
 			if c > x.Bound {
 				continue
+			}
+			if prefix == nil && x.RootShards > 1 {
+				rootN++
+				if rootN%x.RootShards != x.RootShard {
+					continue
+				}
 			}
 			next := append(append([]int{}, choices[:i]...), alt)
 			if !x.explore(next) && (x.Fail != "" || x.Infra != "" || x.Capped) {
